@@ -576,6 +576,65 @@ def r6_one_compiler(cx):
         cx.error("expected identity comparisons (is None ...) in the query modules, found %d" % n)
 
 
+ONE_SHOT = ("map", "filter", "zip", "iter", "reversed", "enumerate", "itertools.chain", "chain", "itertools.imap", "itertools.ifilter", "six.moves.map", "six.moves.filter", "six.moves.zip")
+
+
+def _one_shot(e):
+    return isinstance(e, ast.GeneratorExp) or (isinstance(e, ast.Call) and call_name(e) in ONE_SHOT)
+
+
+def r7_predicates_reusable(cx):
+    """A compiled query is applied to every node of a level: whatever its closure captured must survive the first application.  A one-shot iterator
+    (map / filter / zip / generator expression on Python 3) captured by a predicate is empty from the second node on."""
+    cx.rule("C20.R7", "no predicate closure captures a one-shot iterator; where() routes Boolean name queries through the compiler", floor=3)
+    n = 0
+    for m in (cx.repo.module(QI), cx.repo.module(QB)):
+        for fn in [f for f in ast.walk(m.tree) if isinstance(f, FUNC_TYPES)]:
+            inner = [g for g in ast.walk(fn) if g is not fn and isinstance(g, FUNC_TYPES + (ast.Lambda,))]
+            if not inner:
+                continue
+            n += 1
+            bad = None
+            for a in [x for x in walk_body(fn.body) if isinstance(x, ast.Assign) and _one_shot(x.value)]:
+                for t in a.targets:
+                    if not isinstance(t, ast.Name):
+                        continue
+                    for g in inner:
+                        bound = set(ar.arg for ar in g.args.args) if hasattr(g, "args") else set()
+                        if t.id not in bound and any(isinstance(x, ast.Name) and x.id == t.id and isinstance(x.ctx, ast.Load) for x in ast.walk(g.body if isinstance(g, ast.Lambda) else ast.Module(body=g.body, type_ignores=[]))):
+                            bad = bad or a
+            if bad is not None:
+                cx.bad(bad, "%s: what a predicate closure captures can be iterated again for every node" % fn.name, construct=short(bad, 90))
+            else:
+                cx.ok(fn, "%s: no closure captures a one-shot iterator" % fn.name, construct="def %s" % fn.name)
+    # where(): a Boolean in the name position is a *name query* (compiled, applied to the children's names).  Boolean objects are callable, so the
+    # branch that treats a callable as a predicate of the node itself must come after the Boolean test.
+    qi = cx.repo.module(QI)
+    bool_callable = False
+    bm = cx.repo.module(QB)
+    for c in [x for x in bm.tree.body if isinstance(x, ast.ClassDef) and x.name == "Boolean"]:
+        bool_callable = any(isinstance(f, FUNC_TYPES) and f.name == "__call__" for f in c.body)
+    for q in ("Entry.where", "Result.where"):
+        fn = qi.func(q, "C20.R7")
+        region = feat.region(qi, fn)
+        direct = []
+        for f in region:
+            ps = params(f)
+            for g in [x for x in ast.walk(f) if isinstance(x, FUNC_TYPES + (ast.Lambda,)) and x is not f]:
+                for c in [x for x in ast.walk(g) if isinstance(x, ast.Call) and isinstance(x.func, ast.Name) and x.func.id in ps]:
+                    direct.append((f, g, c))
+        if not direct:
+            cx.ok(fn, "%s applies no user callable directly" % q, construct="def where")
+            continue
+        for f, g, c in direct:
+            nm = c.func.id
+            host = g if isinstance(g, FUNC_TYPES) else stmt_of(g)
+            gs = guard_texts(host)
+            ok = (not bool_callable) or ("isinstance(%s, Boolean)" % nm, False) in gs
+            cx.require(ok, c, "%s: %s is applied to the node itself only when it is not a Boolean name query (Boolean objects are callable: the Boolean test comes first)" % (q, nm),
+                       construct="%s under %s" % (short(c, 40), sorted(t for t, p_ in gs if "isinstance" in t or "callable" in t)))
+
+
 def run(cx):
     repo = cx.repo
     cx.extra["explanation"] = ("C20: reconstruction of the code template of both to_pyfunc generators per class and agreement with the connective used by the class's test(); exhaustive dispatch over "
@@ -590,3 +649,4 @@ def run(cx):
     cx.guard(r4_levels)
     cx.guard(r5_persistent_expressions, mods)
     cx.guard(r6_one_compiler)
+    cx.guard(r7_predicates_reusable)
